@@ -744,17 +744,6 @@ theorem deleteNote_spec (lines : List Str) (zid : Str) (n : Nat) (r : List Str)
 #guard_msgs in
 #eval (addOrUpdateModifyDate "260928".toList "- 260927 ".toList).map String.ofList
 
-#print axioms updateLines_spec
-#print axioms isStamped_iff
-#print axioms popLineBeforeZid_shape
-#print axioms popLineBeforeZid_shape'
-#print axioms popLineBeforeZid_noPrio
-#print axioms popLineBeforeZid_prio
-#print axioms addZidToLine_shape
-#print axioms addOrUpdateModifyDate_shape
-#print axioms joinSp_splitOn
-#print axioms splitOn_joinSp
-#print axioms addOrUpdateModifyDate_restamp
 
 -- the three cases of `addNote` (lines shown joined with "|")
 /-- info: ((2, true, true), true, false, ["- a", "o b", "- n", ""]) -/
@@ -783,17 +772,5 @@ theorem deleteNote_spec (lines : List Str) (zid : Str) (n : Nat) (r : List Str)
   (insertionIndex ls, targetNotBlank ls, headerOnly ls,
     (addNote ls (["- n", ""].map String.toList)).map String.ofList)
 
-#print axioms insertionIndex_lt
-#print axioms addNote_eq
-#print axioms addNote_targetNotBlank
-#print axioms addNote_headerOnly
-#print axioms addNote_replace
-#print axioms addNote_spec
-#print axioms targetNotBlank_last
-#print axioms headerOnly_last
-#print axioms addNote_append_targetNotBlank
-#print axioms addNote_append_headerOnly
-#print axioms addNote_length_append
-#print axioms deleteNote_spec
 
 end ZorgVerif.NoteText
